@@ -503,3 +503,19 @@ register("C15",
          "the declaration order is compared, the package is compiled and vetted, and every function is executed with and without the "
          "wireinject tag (identical output required); non-trivial = the corpus run",
          [_c15_part])
+
+
+def _c19_part(rep, tier):
+    from . import c19tier
+    return c19tier.run_c19(rep, tier)
+
+
+register("C19",
+         "unit tier: the real gather (cmd/wire, reached through an overlay file) on random accepted provider sets vs WireV.gather; "
+         "e2e: generated programs, well-formed or with one planted defect (missing source, duplicate, unused item, missing error / cleanup "
+         "result, ill-formed top-level set no injector uses): wire check exit and error classes vs wire gen; wire show output parsed: "
+         "listed sets, included named sets, injectors, and the grouping of every provided type under exactly the set of types that must "
+         "come from outside (computed declaratively from the abstract program); non-trivial = each program",
+         [stream_part("C19", lambda tier: [("gather", "gather", ["-seed", seed(), "-n", 3000 if tier == "quick" else 40000])],
+                      nontrivial=lambda case, im: len(im.split()) >= 3),
+          _c19_part])
